@@ -10,7 +10,10 @@ What is modelled (mesa/discrete_space/cell.py, cell_agent.py, discrete_space.py,
   connections (targets, in the order of the dict), capacity}`,
   agents `{_mesa_cell, unique_id, model}`, and one record per simulation `{_cells (enumeration order),
   model._agents (registration order)}` — the program builds one `Model` per space and keeps the two together, so the pair
-  `(space, model)` has one identity here (`home` of an agent = that pair);
+  `(space, model)` has one identity here (`home` of an agent = that pair).  The two further objects every cell of a space
+  refers to — the generator (`space.random is model.random is cell.random`) and, for grids, the dynamically created cell class
+  (`type(cell)`, carrier of the property descriptors, `Model/Copy.lean`) — are created with the pair and copied with it; they
+  share its identity (`rnd`, `klass` of a cell point to the pair);
 * `Agent._ids` — the class-level per-model id counter, keyed by the model *object*, **not** copied;
 * `HasCell.cell = c` as repaired: the new cell's refusal (`Cell.add_agent`: `capacity and n >= capacity`) comes before
   anything changes; then the agent leaves the old cell's list (`list.remove`: first occurrence) and enters the new one at
@@ -38,6 +41,8 @@ structure CellRec where
   agents : List Nat
   conn : List Nat
   cap : Option Nat
+  rnd : Nat              -- Cell.random: the generator object of a pair space / model
+  klass : Option Nat     -- type(cell): the dynamic cell class of a grid; `none`: the plain class `Cell` (network cells)
 deriving Repr, DecidableEq
 
 structure AgentRec where
@@ -78,14 +83,16 @@ def connOf (base k : Nat) (pairs : List (Nat × Nat)) (i : Nat) : List Nat :=
   (pairs.filter fun p => p.1 == i && p.2 < k).map fun p => p.2 + base
 
 /-- a new space of `k` cells (identities `next+1 … next+k`) with one capacity and the connection relation `pairs`
-    (pairs of cell numbers; the order is the order of each cell's `connections` dict), and its model: identity `next` -/
-def newSpace (w : World) (k : Nat) (cap : Option Nat) (pairs : List (Nat × Nat)) : World × Nat :=
+    (pairs of cell numbers; the order is the order of each cell's `connections` dict), and its model: identity `next`;
+    `grid`: a `Grid` (one dynamic cell class per grid) rather than a `Network` (plain `Cell`s) -/
+def newSpace (w : World) (k : Nat) (cap : Option Nat) (grid : Bool) (pairs : List (Nat × Nat)) : World × Nat :=
   let s := w.next
   let base := w.next + 1
   ({ w with
      next := base + k
      cells := fun i => if base ≤ i ∧ i < base + k then
-         some { idx := i - base, agents := [], conn := connOf base k pairs (i - base), cap := cap }
+         some { idx := i - base, agents := [], conn := connOf base k pairs (i - base), cap := cap, rnd := s,
+                klass := if grid then some s else none }
        else w.cells i
      spaces := upd w.spaces s { cells := (List.range k).map (· + base), reg := [] } }, s)
 
@@ -168,7 +175,7 @@ def remove (w : World) (a : Nat) : Option World :=
   | some ar => some (dereg (unplace w a) a ar.home)
 
 def shiftCell (B : Nat) (cr : CellRec) : CellRec :=
-  { cr with agents := cr.agents.map (· + B), conn := cr.conn.map (· + B) }
+  { cr with agents := cr.agents.map (· + B), conn := cr.conn.map (· + B), rnd := cr.rnd + B, klass := cr.klass.map (· + B) }
 
 def shiftAgent (B : Nat) (ar : AgentRec) : AgentRec :=
   { ar with cell := ar.cell.map (· + B), home := ar.home + B }
@@ -194,9 +201,11 @@ def copySpace (w : World) (s : Nat) : Option (World × Nat) :=
   | some sr => some (copyWorld w s sr, s + w.next)
 
 /-- the second reconstruction of an occupied cell made by the code before S22: same coordinate, capacity and (shifted)
-    agents, no connections (it is not in the space, so `_connect_cells` never reaches it) -/
+    agents, no connections (it is not in the space, so `_connect_cells` never reaches it), the copied generator, and a
+    throw-away class of its own (`Grid.__setstate__` re-classes the cells of the grid only) -/
 def ghostOf (B : Nat) (cr : CellRec) : Option CellRec :=
-  if cr.agents.isEmpty then none else some { cr with agents := cr.agents.map (· + B), conn := [] }
+  if cr.agents.isEmpty then none
+  else some { cr with agents := cr.agents.map (· + B), conn := [], rnd := cr.rnd + B, klass := none }
 
 /-- the code before S22: as `copyWorld`, but every occupied cell `c` is reconstructed a second time (identity `c + 2·next`)
     and the copied agents point to that one.  (With several agents in one cell the old code nested one further
@@ -223,9 +232,9 @@ def ghostCopy (w : World) (s : Nat) : Option (World × Nat) :=
 /-! ### observations -/
 
 /-- what the program reads from one cell: identity, coordinate index, capacity, the agents listed (identities, in order),
-    the connection targets (identities, in order) -/
-def cellView (w : World) (c : Nat) : Option (Nat × Nat × Option Nat × List Nat × List Nat) :=
-  (w.cells c).map fun cr => (c, cr.idx, cr.cap, cr.agents, cr.conn)
+    the connection targets (identities, in order), its generator and its class -/
+def cellView (w : World) (c : Nat) : Option (Nat × Nat × Option Nat × List Nat × List Nat × Nat × Option Nat) :=
+  (w.cells c).map fun cr => (c, cr.idx, cr.cap, cr.agents, cr.conn, cr.rnd, cr.klass)
 
 /-- what the program reads from one agent: identity, `unique_id`, the cell it points to -/
 def agentView (w : World) (a : Nat) : Option (Nat × Nat × Option Nat) :=
@@ -234,7 +243,7 @@ def agentView (w : World) (a : Nat) : Option (Nat × Nat × Option Nat) :=
 /-- everything the program reads from a space and its model: the cells in enumeration order, the registered agents in
     registration order -/
 def view (w : World) (s : Nat) :
-    Option (List (Nat × Nat × Option Nat × List Nat × List Nat) × List (Nat × Nat × Option Nat)) :=
+    Option (List (Nat × Nat × Option Nat × List Nat × List Nat × Nat × Option Nat) × List (Nat × Nat × Option Nat)) :=
   match w.spaces s with
   | none => none
   | some sr => some (sr.cells.filterMap (cellView w), sr.reg.filterMap (agentView w))
@@ -248,7 +257,7 @@ def empties (w : World) (s : Nat) : Option (List Nat) :=
 /-! ### the step function of the protocol -/
 
 inductive Op where
-  | newSpace (k : Nat) (cap : Option Nat) (pairs : List (Nat × Nat))
+  | newSpace (k : Nat) (cap : Option Nat) (grid : Bool) (pairs : List (Nat × Nat))
   | newAgent (s : Nat)
   | set (a c : Nat)
   | unset (a : Nat)
@@ -258,7 +267,7 @@ deriving Repr, DecidableEq
 
 /-- a rejected operation leaves the world as it is -/
 def step (w : World) : Op → World
-  | .newSpace k cap pairs => (newSpace w k cap pairs).1
+  | .newSpace k cap grid pairs => (newSpace w k cap grid pairs).1
   | .newAgent s => match newAgent w s with | some (w', _, _) => w' | none => w
   | .set a c => (setCell w a c).1
   | .unset a => (unsetCell w a).getD w
@@ -280,7 +289,7 @@ def homeOf (w : World) (a : Nat) : List Nat :=
 
 /-- the identities whose record an operation may change (besides the fresh ones it allocates) -/
 def writes (w : World) : Op → List Nat
-  | .newSpace _ _ _ => []
+  | .newSpace _ _ _ _ => []
   | .newAgent s => [s]
   | .set a c => a :: c :: cellOf w a
   | .unset a => a :: cellOf w a
